@@ -74,14 +74,9 @@ func c03(c *q.Ctx) {
 		c.Guard(dx, q.Cond{Canon: "(0 < len(p1.Blockid))", Sense: true}, q.ToCall("State.doTxSync"), q.Opt{})
 	}
 
-	// ---- K7: block-application siblings refuse an output cited twice in one block
-	pu := c.Fn(st + "(*State).processUnconfirmTxs")
-	if pu != nil {
-		c.MapDedup(pu, "utxo.GenUtxoKey(p1.Transactions[].TxInputs[].FromAddr,p1.Transactions[].TxInputs[].RefTxid,p1.Transactions[].TxInputs[].RefOffset)", q.ToSuccess(), "PlayAndRepost path: an output cited twice inside one block is rejected", "(#i < len(p1.Transactions))")
-	}
-	tb := c.Fn(st + "(*State).procTodoBlkForWalk")
-	if tb != nil {
-		c.MapDedup(tb, "utxo.GenUtxoKey(p1[#down].Transactions[].TxInputs[].FromAddr,p1[#down].Transactions[].TxInputs[].RefTxid,p1[#down].Transactions[].TxInputs[].RefOffset)", q.ToCall("State.doTxInternal"), "walk path: an output cited twice inside one block is rejected before anything is applied", "(#i < len(p1[#down].Transactions))")
+	inBlockDistinct(c)
+	if cb := c.Fn("bcs/ledger/xledger/ledger::(*Ledger).ConfirmBlock"); cb != nil {
+		dupTxDecision(c, cb)
 	}
 	pr := c.Fn(st + "(*State).PlayAndRepost")
 	if pr != nil {
@@ -122,6 +117,20 @@ func poolRollback(c *q.Ctx) {
 		c.NeverAfter(uu, q.ToCall("State.undoTxInternal"), q.ToCall("State.undoUnconfirmedTx"), "dependants are rolled back before the transaction itself, never after")
 		c.ArgIs(uu, "State.undoUnconfirmedTx", 1, "p2[p3[p1.Txid][]]", 1, "the dependants are the graph's children of this transaction (the graph is keyed by the raw txid)")
 		c.Gate(uu, "State.undoUnconfirmedTx", q.ToCall("State.undoTxInternal"), q.Opt{K1Only: true})
+		// every transaction that was rolled back is recorded in the caller's done-set, whoever the caller is: the walk
+		// AND the block-play path (which passes no replay list) purge the in-memory pool from this set - an evicted
+		// transaction that stays in memory is packed into the node's next block and rolled back a second time
+		done := q.Target{Name: "the done-set entry of this transaction (p5[p1.Txid] = true)", Instr: func(i ssa.Instruction) bool {
+			mu, ok := i.(*ssa.MapUpdate)
+			return ok && q.Canon(mu.Map) == "p5" && q.Canon(mu.Key) == "p1.Txid"
+		}}
+		c.Then(uu, q.ToCall("State.undoTxInternal"), done, q.ToSuccess(), nil, "a rolled-back transaction is always recorded as done")
+		c.MapStoreKeys(uu, "p5", []string{"p1.Txid"}, "the done-set is keyed by the raw txid (what the pool map and the callers use)")
+	}
+	// the callers purge the in-memory pool from exactly that set
+	if pr := c.Fn(st + "(*State).PlayAndRepost"); pr != nil {
+		c.Effect(pr, q.Eff{Spec: "Map.Delete", Arg: 0, Glob: "key(state.(*State).processUnconfirmTxs(*)#0)", Why: "pool transactions the block confirmed leave the in-memory pool", Rule: "K2"})
+		c.Effect(pr, q.Eff{Spec: "Map.Delete", Arg: 0, Glob: "key(state.(*State).processUnconfirmTxs(*)#1)", Why: "pool transactions the block evicted (conflicting or too old) leave the in-memory pool", Rule: "K2"})
 	}
 }
 
@@ -184,5 +193,21 @@ func commitVersionChecks(c *q.Ctx) {
 		c.Gate(vi, "XModel.Get|XModel.GetUncommited", q.ToSuccess(), q.Opt{K1Only: true, Min: 2})
 		// the value whose version is compared is the one that was read for the same bucket/key
 		c.Guard(vi, q.Cond{Canon: "(xmodel.GetVersion(phi{xmodel.(*XModel).Get(p0,p1.TxInputsExt[].Bucket,p1.TxInputsExt[].Key)#0|xmodel.(*XModel).GetUncommited(p0,p1.TxInputsExt[].Bucket,p1.TxInputsExt[].Key)#0}) == xmodel.GetVersionOfTxInput(p1.TxInputsExt[]))", Sense: false}, q.ToSuccess(), q.Opt{})
+	}
+}
+
+// inBlockDistinct (C03, C02): both block-application siblings refuse a block that cites one output twice - across ALL
+// its transactions (the set spans the transaction loop); otherwise both spends are applied and the sum of the unspent
+// outputs exceeds the total.
+func inBlockDistinct(c *q.Ctx) {
+	const st = "bcs/ledger/xledger/state::"
+	// ---- K7: block-application siblings refuse an output cited twice in one block
+	pu := c.Fn(st + "(*State).processUnconfirmTxs")
+	if pu != nil {
+		c.MapDedup(pu, "utxo.GenUtxoKey(p1.Transactions[].TxInputs[].FromAddr,p1.Transactions[].TxInputs[].RefTxid,p1.Transactions[].TxInputs[].RefOffset)", q.ToSuccess(), "PlayAndRepost path: an output cited twice inside one block is rejected", "(#i < len(p1.Transactions))")
+	}
+	tb := c.Fn(st + "(*State).procTodoBlkForWalk")
+	if tb != nil {
+		c.MapDedup(tb, "utxo.GenUtxoKey(p1[#down].Transactions[].TxInputs[].FromAddr,p1[#down].Transactions[].TxInputs[].RefTxid,p1[#down].Transactions[].TxInputs[].RefOffset)", q.ToCall("State.doTxInternal"), "walk path: an output cited twice inside one block is rejected before anything is applied", "(#i < len(p1[#down].Transactions))")
 	}
 }
